@@ -438,7 +438,7 @@ enum {
 	B_IAT_OFF, B_IAT_ON, B_EXP_NEG, B_EXP_0, B_EXP_60, B_NBF_NEG, B_NBF_0, B_NBF_60, B_OFF_IAT_BAD,
 	B_KEY_NONE, B_KEY_OCT, B_KEY_ES, B_KEY_ES_PUB,
 	B_CB_NULL, B_CB_ADD, B_CB_SETKEY, B_CB_DELCLAIMS, B_CB_DROPKEY,
-	B_HSET_TYP_INT, B_EXP_BIG, B_NBF_BIG,
+	B_HSET_TYP_INT, B_EXP_BIG, B_NBF_BIG, B_CSET_REALS,
 	B_GEN_T0, B_GEN_T1, NBOPS
 };
 /* offsets beyond 2^31 and 2^32 seconds (time_t is 64 bits wide here) */
@@ -448,7 +448,7 @@ static const char *bop_name[NBOPS] = { "header_set(typ,X)", "header_set(alg,none
 	"claim_set(exp,7)", "claim_set(sub,s)", "claim_del(sub)", "claim_del(all)", "claim_set(exp,\"never\")", "claim_set(iat,true)", "enable_iat(0)", "enable_iat(1)", "time_offset(EXP,-5)", "time_offset(EXP,0)",
 	"time_offset(EXP,60)", "time_offset(NBF,-5)", "time_offset(NBF,0)", "time_offset(NBF,60)", "time_offset(IAT,1)!", "setkey(none,NULL)", "setkey(none,oct+HS256)",
 	"setkey(ES256,P-256 private)", "setkey(ES256,P-256 public)!", "setcb(NULL)", "setcb(adds claim+header)", "setcb(selects HS256 key)", "setcb(deletes all claims)", "setcb(withdraws key and alg)",
-	"header_set(typ,7)", "time_offset(EXP,3000000000)", "time_offset(NBF,6311520000)",
+	"header_set(typ,7)", "time_offset(EXP,3000000000)", "time_offset(NBF,6311520000)", "claim_set(JSON {exp:1.5,nbf:2.5,iat:3.5})",
 	"generate@T0", "generate@T0+1000" };
 
 static jwk_set_t *bk_oct, *bk_es, *bk_es_pub;
@@ -500,6 +500,11 @@ static void bmodel_step(bst_t *s, int op)
 	case B_NBF_NEG: case B_NBF_0: s->nbf = 0; break;
 	case B_NBF_60: s->nbf = 60; break;
 	case B_HSET_TYP_INT: mset(s->h, "typ", json_integer(7), 0); break;
+	case B_CSET_REALS:   /* whole-object set without replace: members that are missing are added */
+		mset(s->c, "exp", json_real(1.5), 0);
+		mset(s->c, "nbf", json_real(2.5), 0);
+		mset(s->c, "iat", json_real(3.5), 0);
+		break;
 	case B_EXP_BIG: s->exp = OFF_EXP_BIG; break;
 	case B_NBF_BIG: s->nbf = OFF_NBF_BIG; break;
 	case B_OFF_IAT_BAD: break;
@@ -572,6 +577,11 @@ static int bimpl_step(jwt_builder_t *b, int op)
 	case B_NBF_0: return jwt_builder_time_offset(b, JWT_CLAIM_NBF, 0);
 	case B_NBF_60: return jwt_builder_time_offset(b, JWT_CLAIM_NBF, 60);
 	case B_HSET_TYP_INT: jwt_set_SET_INT(&v, "typ", 7); return jwt_builder_header_set(b, &v);
+	case B_CSET_REALS: {
+		char txt[] = "{\"exp\":1.5,\"nbf\":2.5,\"iat\":3.5}";
+		jwt_set_SET_JSON(&v, NULL, txt);
+		return jwt_builder_claim_set(b, &v);
+	}
 	case B_EXP_BIG: return jwt_builder_time_offset(b, JWT_CLAIM_EXP, OFF_EXP_BIG);
 	case B_NBF_BIG: return jwt_builder_time_offset(b, JWT_CLAIM_NBF, OFF_NBF_BIG);
 	case B_OFF_IAT_BAD: return jwt_builder_time_offset(b, JWT_CLAIM_IAT, 1);
@@ -820,6 +830,7 @@ static void enumerate_c10(void)
 static void enumerate(void)
 {
 	vf_alloc_install();
+	vf_alloc_track(1);
 	vk_load();
 	rc_rng_install();
 	vf_now = T0;
